@@ -12,6 +12,8 @@ import (
 
 const (
 	initBufSize = 512
+
+	maxConsecutiveEmptyReads = 100
 )
 
 type Stream struct {
@@ -217,6 +219,14 @@ func (s *Stream) read() bool {
 	buf[last] = nul
 	verifYield("dec-stream:read")
 	n, err := s.r.Read(buf[:last])
+	for tries := 0; n == 0 && err == nil; tries++ {
+		// io.Reader may return (0, nil): nothing happened, ask again (bounded like bufio.Reader)
+		if tries == maxConsecutiveEmptyReads {
+			err = io.ErrNoProgress
+			break
+		}
+		n, err = s.r.Read(buf[:last])
+	}
 	s.length += int64(n)
 	if n == last {
 		s.filledBuffer = true
